@@ -12,6 +12,9 @@ func init() {
 		sub := func(id string, base *sim.Cfg, restr [][]int, menu []sim.SubSpec) wx.Scenario {
 			base.ID = id + "/base"
 			base.Prop = "C12"
+			if len(base.Filters) > 5 && base.Filters[5].Name == "All()" {
+				base.BatchRefs = append(base.BatchRefs, 5) // batches spanning tables with and without relation
+			}
 			return scAny(&sim.SubCfg{ID: id, Base: base, Restrictions: restr, DispatchMenu: menu})
 		}
 		// Rel2Cfg components: A=0, R=1, R2=2
